@@ -231,6 +231,67 @@ theorem C17_pre041_unknown_type_skipped (o : OldConn) (h1 : o.type ≠ key "Sour
     migrateInst o = none := by
   simp [migrateInst, h1, h2]
 
+/-! ### a whole store of old and current records -/
+
+theorem isOldKey_storeKey_old (sfx : Str) : isOldKey (storeKey connPre041KeyPrefix sfx) = true := by
+  simp [isOldKey, storeKey, List.isPrefixOf_iff_prefix]
+
+theorem isOldKey_storeKey_new (id : Str) : isOldKey (storeKey connKeyPrefix id) = false :=
+  C17_store_keys.2.2.1 id
+
+/-- "records of older supported formats are still understood", for a *store*: the migration run by
+`NewStore` is a per-record map — the record the restarted server finds at position `i` depends on
+the record that was at position `i` and on nothing else; migrating two stores put together is
+putting the two migrated stores together (whatever else is in the store — other old connectors with
+other plugins / setting keys / missing members, current-format records — and in whatever order). -/
+theorem C17_pre041_store_independent (a b : KV) :
+    migrateStore (a ++ b) = migrateStore a ++ migrateStore b ∧
+    (∀ (db : KV) (i : Nat), (migrateStore db)[i]? = db[i]?.map migrateRec) ∧
+    (∀ (db : KV) (r : Str × List Char), r ∈ migrateStore db ↔ ∃ r₀ ∈ db, migrateRec r₀ = r) := by
+  refine ⟨by simp [migrateStore], fun db i => by simp [migrateStore], fun db r => by simp [migrateStore]⟩
+
+/-- records that are not in the old format (current connectors, pipelines, processors, anything
+else in the database) come through the migration untouched, byte for byte. -/
+theorem C17_pre041_store_leaves_current_untouched (db : KV) (r : Str × List Char) (hr : r ∈ db)
+    (hk : isOldKey r.1 = false) : migrateRec r = r ∧ r ∈ migrateStore db := by
+  have h : migrateRec r = r := by simp [migrateRec, hk]
+  exact ⟨h, by simp only [migrateStore, List.mem_map]; exact ⟨r, hr, h⟩⟩
+
+/-- every well-formed old record of the store — wherever it sits, under whatever old key, next to
+whatever other records — ends up under the new key of its own ID, as bytes from which a store reads
+exactly the specified instance (all its own fields, nothing from any other record). -/
+theorem C17_pre041_store_migrates_each (db₁ db₂ : KV) (sfx : Str) (o : OldRecord) (h : o.WF) (hid : o.xid ≠ []) :
+    ∃ bytes, migrateStore (db₁ ++ (storeKey connPre041KeyPrefix sfx, (encOld o).print) :: db₂)
+        = migrateStore db₁ ++ (storeKey connKeyPrefix o.xid, bytes) :: migrateStore db₂ ∧
+      loadConn bytes = some (.ok o.migrated) := by
+  have ht := C17_pre041_migration_from_text o h hid
+  cases hm : (parse (encOld o).print).bind migrateDoc with
+  | none => rw [hm] at ht; simp at ht
+  | some p =>
+    rw [hm] at ht
+    simp only [Option.map_some, Option.some.injEq, Prod.mk.injEq] at ht
+    refine ⟨p.2.print, ?_, ?_⟩
+    · simp only [migrateStore, List.map_append, List.map_cons, migrateRec, isOldKey_storeKey_old, if_true, hm, ht.1]
+    · simp [loadConn, parse_print, ht.2]
+
+/-- a second restart finds nothing left to migrate and changes nothing. -/
+theorem C17_pre041_store_idempotent (db : KV) : migrateStore (migrateStore db) = migrateStore db := by
+  simp only [migrateStore, List.map_map]
+  apply List.map_congr_left
+  intro r _
+  simp only [Function.comp]
+  by_cases hk : isOldKey r.1 = true
+  · cases hm : (parse r.2).bind migrateDoc with
+    | none =>
+      have : migrateRec r = r := by simp [migrateRec, hk, hm]
+      rw [this, this]
+    | some p =>
+      have : migrateRec r = (storeKey connKeyPrefix p.1, p.2.print) := by simp [migrateRec, hk, hm]
+      rw [this]
+      simp [migrateRec, isOldKey_storeKey_new]
+  · have : migrateRec r = r := by simp [migrateRec, hk]
+    rw [this, this]
+
 /-! ## a running pipeline is found again as one to be resumed -/
 
 /-- a restart reads every stored pipeline back (the round trip), applies `pipeline.Service.Init`
